@@ -1,5 +1,7 @@
 import KoordVerif.Model.C04
 import KoordVerif.Proofs.C04ExtConc
+import KoordVerif.Proofs.C04ExtWire
+import KoordVerif.Proofs.C04ExtCreate
 import KoordVerif.Generated.C04
 /-
 Tie lemmas for C04: facts regenerated from /repo's current source on every run.  They pin
@@ -9,7 +11,8 @@ Tie lemmas for C04: facts regenerated from /repo's current source on every run. 
 (2) the shape of core.Permit the model copies: addAssumedPod before the loop over the gang group,
     one isGangValidForPermit per gang, and no lock of its own (so `permit_snapshot` is the honest
     statement under real interleavings);
-(3) the informer wiring of NewPodGroupManager (the harness builds GangCache + PodGroupManager directly);
+(3) the informer wiring of NewPodGroupManager (the harness builds GangCache + PodGroupManager directly; the extractor
+    sorts the `Key=method` pairs, the order in which the two literals are written does not matter);
 (4) the guard of setChild's PendingChildren insertion (fix bbde960);
 (5) the lock structure of the Gang methods the small-step model treats as ONE critical section each
     (one gang.lock.Lock/RLock, one deferred Unlock, no explicit Unlock, no child-set access before
@@ -19,7 +22,15 @@ Tie lemmas for C04: facts regenerated from /repo's current source on every run. 
     leaves out, cannot influence a release), and Unreserve / AfterPostFilter / PostBind call the gang methods
     the model's `unreserve` / `postFilter` / `postBind` mirror, in that order;
 (6) the test guarding the "gang is a group of its own" fallback on both initialisation paths
-    (`len(groupSlice) == 0`, the model's `groupOrSelf`).
+    (`len(groupSlice) == 0`, the model's `groupOrSelf`);
+(8) what NewPodGroupManager REGISTERS on the pod and the PodGroup informer: the cache.ResourceEventHandlerFuncs literal
+    itself (model: wiring 0 of `deliverDel` — nothing between the informer and onPodDelete / onPodGroupDelete that could
+    drop an event shape they understand, e.g. a re-list tombstone), and with it the delivery theorem at the extracted
+    wiring;
+(9) the lock structure of GangCache.getGangFromCacheByGangId: one write Lock, no RLock, one deferred Unlock, no
+    explicit Unlock, gangItems / NewGang not touched before the Lock, one lookup and one store of gangItems — get-or-create
+    is ONE critical section (the `sections = 1` shape of Proofs/C04ExtCreate.lean), and `newGang_race_atomic_safe`
+    instantiated at the extracted number of sections.
 -/
 namespace KoordVerif.C04
 open KoordVerif.Generated
@@ -45,8 +56,8 @@ theorem tie_core_permit_shape :
 
 theorem tie_informer_wiring :
     C04.informerWiring =
-      ["AddFunc=onPodGroupAdd", "UpdateFunc=onPodGroupUpdate", "DeleteFunc=onPodGroupDelete",
-       "AddFunc=onPodAdd", "UpdateFunc=onPodUpdate", "DeleteFunc=onPodDelete"] := by decide
+      ["AddFunc=onPodAdd", "AddFunc=onPodGroupAdd", "DeleteFunc=onPodDelete", "DeleteFunc=onPodGroupDelete",
+       "UpdateFunc=onPodGroupUpdate", "UpdateFunc=onPodUpdate"] := by decide
 
 theorem tie_setChild_guard :
     C04.setChildPendingGuard = ["NodeName", "WaitingForBindChildren", "BoundChildren"] := by decide
@@ -84,5 +95,41 @@ theorem tie_setChild_atomic_safe (g : PodSets) (progs : List (List Call)) (sched
   have e : C04.setChildSections = 1 := by decide
   rw [e] at hc ⊢
   exact run_whole_disj _ sched (start_one_allWhole g progs) hg hc
+
+/-- the model's wiring token of what the extractor saw registered on an informer -/
+def wiringOf (kind : String) : Nat := if kind = "direct" then 0 else 1
+
+/-- wiring of the informer `name` in the CURRENT source (1 = not the plain literal / not registered at all) -/
+def registeredWiring (name : String) : Nat :=
+  match C04.handlerRegistrations.find? (fun e => e.1 == name) with
+  | some e => wiringOf e.2
+  | none => 1
+
+theorem tie_handlers_registered_directly :
+    C04.handlerRegistrations =
+      [("pgInformer", "direct"), ("podInformer", "direct"),
+       ("reservationInformer", "call:NewReservationToPodEventHandler")] := by decide
+
+/-- the delivery theorem at the wiring the CURRENT source has: a delete the informer hands over as the object or as a
+    re-list tombstone reaches onPodDelete / onPodGroupDelete -/
+theorem tie_delete_delivery (shape : Nat) (op : Op) (h : delUnderstood shape = true) :
+    deliverDel (registeredWiring "podInformer") shape op = op ∧
+    deliverDel (registeredWiring "pgInformer") shape op = op := by
+  have e1 : registeredWiring "podInformer" = 0 := by decide
+  have e2 : registeredWiring "pgInformer" = 0 := by decide
+  rw [e1, e2]
+  simp [deliverDel, handlerForwardsDel, h]
+
+theorem tie_getGang_one_section :
+    C04.getGangLockShape = (1, 0, 1, 0, false) ∧ C04.getGangMapAccess = (1, 1) ∧ C04.getGangSections = 1 := by decide
+
+/-- the invariant of get-or-create for the number of critical sections getGangFromCacheByGangId has in the CURRENT
+    source: every goroutine that holds a Gang for an id holds the cached one, under every schedule -/
+theorem tie_getOrCreate_unique (progs : List (GangId × CAct)) (sched : List Nat) :
+    ∀ t ∈ ((cStart progs).run C04.getGangSections sched).ts, 2 ≤ t.pc →
+      cLookup ((cStart progs).run C04.getGangSections sched).cache t.gid = some t.obj := by
+  have e : C04.getGangSections = 1 := by decide
+  rw [e]
+  exact (cinv_run _ sched (cinv_start progs)).holds
 
 end KoordVerif.C04
